@@ -185,6 +185,12 @@ func ZZ_C10_expand() {
 			values[e] = c - 1
 		}
 	}
+	zzCheckExpand(tmplDesc, tmpl, fills, values)
+	rt.Reach("end")
+}
+
+// zzCheckExpand compares tmpl.FillVariables(values) with the reference expansion of the description.
+func zzCheckExpand(tmplDesc *zzT, tmpl ItemNode, fills map[string]int, values map[string]interface{}) {
 	var got ItemNode
 	if rt.Try(func() { got = tmpl.FillVariables(values) }) {
 		rt.Assert(false, "expand:accepted")
@@ -226,9 +232,9 @@ func ZZ_C10_expand() {
 	// each generated name can be filled individually and removes exactly that name
 	var vars []*zzT
 	zzVarsOf(want, &vars)
-	for _, v := range vars {
-		if v.kind == 5 {
-			continue
+	for vi, v := range vars {
+		if v.kind == 5 || (len(vars) > 16 && vi >= 6 && vi < len(vars)-6) {
+			continue // big expansions: the first and last six generated names
 		}
 		var val interface{}
 		switch v.kind {
@@ -249,5 +255,61 @@ func ZZ_C10_expand() {
 			rt.Assert(x != v.name, "expand:fill-removes-that-name")
 		}
 	}
+}
+
+// ZZ_C10_shapes: fixed template shapes with repeat counts and nesting beyond what the
+// generated templates reach: 0 <L x ... y> and 1 <L <L a ...[0] b> ...[1] c> with counts up
+// to `n` (two-digit copy indices), 2 a chain of `depth` nested lists <L v <L ..> ...[i] w>
+// whose ellipses are each left unfilled or filled with 0 or 1 (all expanded at once).
+func ZZ_C10_shapes() {
+	shape, n, depth := rt.Param("shape"), rt.Param("n"), rt.Param("depth")
+	ell := func(i int) *zzT { return &zzT{kind: 5, name: "...[" + rt.N("", i)[1:] + "]"} }
+	leaf := func(kind int, name string) *zzT { return &zzT{kind: kind, name: name} }
+	var desc *zzT
+	fills := map[string]int{}
+	values := map[string]interface{}{}
+	set := func(i, c int) {
+		fills[ell(i).name] = c
+		values[ell(i).name] = c
+	}
+	switch shape {
+	case 0:
+		desc = &zzT{kind: 4, kids: []*zzT{leaf(1, "x"), {kind: 5, name: "..."}, leaf(2, "y")}}
+		c := rt.IntRange("n0", 0, n)
+		c = rt.Concretize(c)
+		fills["..."], values["..."] = c, c
+	case 1:
+		inner := &zzT{kind: 4, kids: []*zzT{leaf(1, "a"), ell(0), leaf(3, "b")}}
+		desc = &zzT{kind: 4, kids: []*zzT{inner, ell(1), leaf(2, "c")}}
+		set(0, rt.Concretize(rt.IntRange("n0", 0, n)))
+		set(1, rt.Concretize(rt.IntRange("n1", 0, 2)))
+	case 2:
+		var cur *zzT
+		for i := depth - 1; i >= 0; i-- {
+			l := &zzT{kind: 4, kids: []*zzT{leaf(1, rt.N("v", i))}}
+			if cur != nil {
+				l.kids = append(l.kids, cur)
+			}
+			l.kids = append(l.kids, ell(i), leaf(2, rt.N("w", i)))
+			cur = l
+		}
+		desc = cur
+		for i := 0; i < depth; i++ {
+			if c := rt.Choice(rt.N("fill", i), 3); c > 0 {
+				set(i, c-1)
+			}
+		}
+		if depth == 1 {
+			desc.kids[1].name = "..."
+			if c, ok := fills["...[0]"]; ok {
+				fills, values = map[string]int{"...": c}, map[string]interface{}{"...": c}
+			}
+		}
+	}
+	var tmpl ItemNode
+	if rt.Try(func() { tmpl = zzBuild(desc).(ItemNode) }) {
+		rt.Assert(false, "template:constructible")
+	}
+	zzCheckExpand(desc, tmpl, fills, values)
 	rt.Reach("end")
 }
